@@ -107,6 +107,31 @@ pub fn seq_cross_bucket<S: Src>(s: &mut S) {
     drop(arena);
 }
 
+/// C06.seq_drop_counts - "dropping the arena drops every added element exactly once", the real
+/// Drop impl (unsafe Vec::from_raw_parts over the buckets) under CBMC's memory model, one
+/// thread, for every element count around the first bucket boundary (126..=130: last bucket
+/// partly filled, exactly full, second bucket just started). Bounded.
+pub static DROPS: core::sync::atomic::AtomicUsize = core::sync::atomic::AtomicUsize::new(0);
+pub struct Counted(pub u8);
+impl Drop for Counted {
+    fn drop(&mut self) { DROPS.fetch_add(1, core::sync::atomic::Ordering::SeqCst); }
+}
+pub fn seq_drop_counts<S: Src>(s: &mut S) {
+    let n = s.u8();
+    s.assume(n >= 126 && n <= 130);
+    DROPS.store(0, core::sync::atomic::Ordering::SeqCst);
+    let arena: AtomicArena<'_, Counted> = AtomicArena::new();
+    let mut i: u8 = 0;
+    while i < n {
+        arena.add(Counted(i));
+        i += 1;
+    }
+    assert!(arena.len() == n as usize);
+    assert!(DROPS.load(core::sync::atomic::Ordering::SeqCst) == 0);
+    drop(arena);
+    assert!(DROPS.load(core::sync::atomic::Ordering::SeqCst) == n as usize);
+}
+
 /// Vacuity canaries: must FAIL.
 pub fn canary_index<S: Src>(s: &mut S) {
     let i = s.u32();
@@ -130,6 +155,7 @@ pub fn dispatch<S: Src>(name: &str, s: &mut S) -> bool {
         "seq_add_get" => seq_add_get(s),
         "seq_add_get_box" => seq_add_get_box(s),
         "seq_cross_bucket" => seq_cross_bucket(s),
+        "seq_drop_counts" => seq_drop_counts(s),
         _ => return false,
     }
     true
@@ -164,6 +190,11 @@ mod proofs {
     #[kani::stub(<parking_lot::RawMutex as lock_api::RawMutex>::unlock, noop_unlock)]
     #[kani::unwind(132)]
     fn seq_cross_bucket() { super::seq_cross_bucket(&mut KaniSrc) }
+    #[kani::proof]
+    #[kani::stub(<parking_lot::RawMutex as lock_api::RawMutex>::lock, noop_lock)]
+    #[kani::stub(<parking_lot::RawMutex as lock_api::RawMutex>::unlock, noop_unlock)]
+    #[kani::unwind(133)]
+    fn seq_drop_counts() { super::seq_drop_counts(&mut KaniSrc) }
     #[kani::proof]
     fn canary_index() { super::canary_index(&mut KaniSrc) }
     #[kani::proof]
